@@ -220,6 +220,7 @@ class OpCtx:
         self.tape = op.setdefault('t', [])
         self.tpos = 0
         self.steps = 0
+        self.rw_steps = 0
         self.injected = []            # exception instances injected into this op
         self.inflight = []            # [(content, mtime)] versions the file took while in flight
         self.start = None             # (content, mtime) at op start
@@ -518,7 +519,9 @@ class World:
         ctx = proc.ctx
         ctx.steps += 1
         self.nsteps += 1
-        if ctx.steps > STEP_CAP:
+        if kind in ('read', 'write'):
+            ctx.rw_steps += 1            # bounded by file size / chunk knob, not by the code's control flow
+        if ctx.steps - ctx.rw_steps > STEP_CAP or ctx.rw_steps > 100 * STEP_CAP:
             raise StepCap('op %d exceeded %d seam steps' % (ctx.index, STEP_CAP))
         self.now += self.tick
         pclass = self.classify(path)
